@@ -14,5 +14,5 @@ PROP = dict(
     stages=[dict(id="gen", harness="c04_action", flavour="plain", cases={Q: 3000, T: 80000}, timeout={Q: 900, T: 7200})],
     min_nontrivial={Q: 800, T: 20000},
     coverage_floor=[("gen", "state_comparisons", {Q: 5000, T: 100000})],
-    assumptions=["matching wells are substituted in sorted order (the order MatchingEntities reports)"],
+    assumptions=["matched wells are inlined in the schedule well order (order of definition), the order WellMatcher::sort gives"],
 )
